@@ -148,6 +148,16 @@ void *realloc(void *p, size_t n)
     vs_check_block(p);
     m = vs_req[__CPROVER_POINTER_OBJECT(p) % VS_OBJS];
     __CPROVER_assert(n <= VS_FAT, "malloc model: request fits the fixed block capacity of this unit");
+#ifdef VERIF_SPLIT_REALLOC_INPLACE
+    /* RESTRICTION chosen by a unit (part of its stated bound): the block is resized in place and never
+     * moves.  Every moved block is one more candidate object for every later access through the pointer;
+     * with str.c re-allocating on each appended character the tok units are otherwise intractable.  What
+     * this leaves out (use of a stale pointer after a block moved) is internal to str.c (C01). */
+    vs_req[__CPROVER_POINTER_OBJECT(p) % VS_OBJS] = (unsigned char) n;
+    if (vg_k2 >= m && vg_k2 < VS_FAT) ((char *) p)[vg_k2] = nondet_char();
+    if (vg_k2 >= n && vg_k2 < VS_FAT) ((char *) p)[vg_k2] = VS_CANARY;
+    return p;
+#endif
     r = (char *) __CPROVER_allocate(VS_FAT, 0);
     vs_req[__CPROVER_POINTER_OBJECT(r) % VS_OBJS] = (unsigned char) n;
     /* constant-size block copy (a copy of min(old, new) bytes with a symbolic length goes through the array
